@@ -193,8 +193,12 @@ def _check_value(run, world, folder, rc, fam, mod, res):
                 x.val, str))
         ob("", all_ret(vn, marker), "no answer must give a non-integer "
            "marker", "none")
-        ob("", all_ret(ve, marker) and _covers(ve), "a framing error must "
-           "give a non-integer marker", "err")
+        def not_mask(x):
+            return not (x.kind == "const" and x.val == "MASK")
+        ob("", all_ret(ve, marker) and _covers(ve) and all_ret(ve, not_mask)
+           and all_ret(vn, not_mask), "a framing error (or no answer) must "
+           "give a non-integer marker that is not 'MASK': MASK stands for a "
+           "clean answer of 255", "err")
         if fam == "NumericResponse":
             ok = all_ret(vc, lambda x: x.kind == "byte") and _covers(vc)
             ob("", ok, "a clean answer must give exactly the integer",
